@@ -23,6 +23,7 @@ package bech32
 
 //@ func bech32.bech32VerifyChecksum
 //@   ensures result == bech32.valid(hrp, len(hrp), data, len(data))
+//@   ensures-by bech32.lemmaChecksumVerifies: len(data) >= 6 && (forall k :: 0 <= k && k < len(data) - 6 ==> data[k] < 32) && data[len(data) - 6 + 0] == u8((bech32.cksum(hrp, len(hrp), data, len(data) - 6) >> 25) & 31) && data[len(data) - 6 + 1] == u8((bech32.cksum(hrp, len(hrp), data, len(data) - 6) >> 20) & 31) && data[len(data) - 6 + 2] == u8((bech32.cksum(hrp, len(hrp), data, len(data) - 6) >> 15) & 31) && data[len(data) - 6 + 3] == u8((bech32.cksum(hrp, len(hrp), data, len(data) - 6) >> 10) & 31) && data[len(data) - 6 + 4] == u8((bech32.cksum(hrp, len(hrp), data, len(data) - 6) >> 5) & 31) && data[len(data) - 6 + 5] == u8((bech32.cksum(hrp, len(hrp), data, len(data) - 6) >> 0) & 31) ==> bech32.valid(hrp, len(hrp), data, len(data))
 //@   modifies nothing
 //@   uses b32_fold_is_foldc
 //@   opaque bech32.step
@@ -55,13 +56,18 @@ package bech32
 //@   ensures err == nil ==> len(result0) == len(chars) && freshornil(result0)
 //@   ensures err == nil ==> forall k :: 0 <= k && k < len(chars) ==> result0[k] < 32 && charset[int(result0[k])] == chars[k]
 //@   ensures err != nil ==> len(result0) == 0
+//@   ensures (forall k :: 0 <= k && k < len(chars) ==> bech32.rev(chars[k]) != -1) ==> err == nil
+//@   ensures err == nil ==> forall k :: 0 <= k && k < len(chars) ==> int(result0[k]) == bech32.rev(chars[k])
 //@   modifies nothing
+//@   loop 1 invariant forall k :: 0 <= k && k < i ==> int(decoded[k]) == bech32.rev(chars[k])
+//@   assert after IndexByte#1: ($ret >= 0 ==> $ret == bech32.rev(chars[i])) && ($ret < 0 ==> bech32.rev(chars[i]) == -1)
 //@   loop 1 invariant 0 <= i && i <= len(chars) && len(decoded) == i && cap(decoded) == len(chars) && fresh(decoded)
 //@   loop 1 invariant forall k :: 0 <= k && k < i ==> decoded[k] < 32 && charset[int(decoded[k])] == chars[k]
 //@   loop 1 decreases len(chars) - i
 
 //@ func bech32.toChars
 //@   ensures err == nil ==> len(result0) == len(data) && forall k :: 0 <= k && k < len(data) ==> data[k] < 32 && result0[k] == charset[int(data[k])]
+//@   ensures (forall k :: 0 <= k && k < len(data) ==> data[k] < 32) ==> err == nil
 //@   ensures err != nil ==> len(result0) == 0
 //@   modifies nothing
 //@   loop 1 invariant len(result) == $i && cap(result) == len(data) && fresh(result)
@@ -77,14 +83,25 @@ package bech32
 //@   ensures err == nil ==> forall k :: 0 <= k && k < len(result1) + 6 ==> result1[k] < 32 && charset[int(result1[k])] == bech32.lower(bech[len(result0) + 1 + k])
 //@   ensures err == nil ==> bech32.valid(result0, len(result0), result1, len(result1) + 6)
 //@   ensures err != nil ==> len(result0) == 0 && len(result1) == 0
+//@   ensures (8 <= len(bech) && len(bech) <= 90 && (forall k :: 0 <= k && k < len(bech) ==> 33 <= bech[k] && bech[k] <= 126 && !(bech[k] >= 65 && bech[k] <= 90)) && 1 <= bech32.last1(bech, len(bech)) && bech32.last1(bech, len(bech)) + 7 <= len(bech) && (forall k :: bech32.last1(bech, len(bech)) < k && k < len(bech) ==> bech32.rev(bech[k]) != -1) && bech32.folds(1, bech, bech32.last1(bech, len(bech)), len(bech) + bech32.last1(bech, len(bech))) == 1) ==> err == nil && len(result0) == bech32.last1(bech, len(bech))
+//@   ensures err == nil ==> forall k :: 0 <= k && k < len(result1) ==> int(result1[k]) == bech32.rev(bech32.lower(bech[len(result0) + 1 + k]))
 //@   modifies nothing
 //@   opaque bech32.step
+//@   uses b32_last1_props(bech, len(bech))
+//@   assert after LastIndexByte#1 as O1: (8 <= len(bech) && len(bech) <= 90 && (forall k :: 0 <= k && k < len(bech) ==> 33 <= bech[k] && bech[k] <= 126 && !(bech[k] >= 65 && bech[k] <= 90)) && 1 <= bech32.last1(bech, len(bech)) && bech32.last1(bech, len(bech)) + 7 <= len(bech) && (forall k :: bech32.last1(bech, len(bech)) < k && k < len(bech) ==> bech32.rev(bech[k]) != -1)) ==> $ret == bech32.last1(bech, len(bech))
+//@   assert after toBytes#1 as TB: $ret1 == nil ==> len($ret0) == len(bech) - one - 1 && forall k :: 0 <= k && k < len($ret0) ==> int($ret0[k]) == bech32.rev(lower[one + 1 + k])
+//@   assert after toBytes#1: (8 <= len(bech) && len(bech) <= 90 && (forall k :: 0 <= k && k < len(bech) ==> 33 <= bech[k] && bech[k] <= 126 && !(bech[k] >= 65 && bech[k] <= 90)) && 1 <= bech32.last1(bech, len(bech)) && bech32.last1(bech, len(bech)) + 7 <= len(bech) && (forall k :: bech32.last1(bech, len(bech)) < k && k < len(bech) ==> bech32.rev(bech[k]) != -1)) ==> $ret1 == nil
+//@   assert after bech32VerifyChecksum#1 as HD: len(hrp) == one && len(decoded) == len(bech) - one - 1 && one >= 0 && (forall k :: 0 <= k && k < one ==> hrp[k] == lower[k]) && (forall k :: 0 <= k && k < len(decoded) ==> int(decoded[k]) == bech32.rev(lower[one + 1 + k]))
+//@   assert after bech32VerifyChecksum#1 from L1, O1, HD expand bech32.ats, bech32.at, bech32.hx, bech32.lower: (8 <= len(bech) && len(bech) <= 90 && (forall k :: 0 <= k && k < len(bech) ==> 33 <= bech[k] && bech[k] <= 126 && !(bech[k] >= 65 && bech[k] <= 90)) && 1 <= bech32.last1(bech, len(bech)) && bech32.last1(bech, len(bech)) + 7 <= len(bech) && (forall k :: bech32.last1(bech, len(bech)) < k && k < len(bech) ==> bech32.rev(bech[k]) != -1)) ==> forall k :: 0 <= k && k < len(bech) + bech32.last1(bech, len(bech)) ==> bech32.ats(bech, bech32.last1(bech, len(bech)), k) == bech32.at(hrp, bech32.last1(bech, len(bech)), decoded, k)
+//@   assert after bech32VerifyChecksum#1: lemma b32_folds_is_foldc(1, bech, bech32.last1(bech, len(bech)), hrp, decoded, len(bech) + bech32.last1(bech, len(bech)))
+//@   assert after bech32VerifyChecksum#1: (8 <= len(bech) && len(bech) <= 90 && (forall k :: 0 <= k && k < len(bech) ==> 33 <= bech[k] && bech[k] <= 126 && !(bech[k] >= 65 && bech[k] <= 90)) && 1 <= bech32.last1(bech, len(bech)) && bech32.last1(bech, len(bech)) + 7 <= len(bech) && (forall k :: bech32.last1(bech, len(bech)) < k && k < len(bech) ==> bech32.rev(bech[k]) != -1) && bech32.folds(1, bech, bech32.last1(bech, len(bech)), len(bech) + bech32.last1(bech, len(bech))) == 1) ==> $ret
 //@   loop 1 invariant 0 <= i && i <= len(bech) && forall k :: 0 <= k && k < i ==> 33 <= bech[k] && bech[k] <= 126
 //@   loop 1 decreases len(bech) - i
-//@   assert after ToLower#1: len(lower) == len(bech) && forall k :: 0 <= k && k < len(bech) ==> lower[k] == bech32.lower(bech[k])
+//@   assert after ToLower#1 as L1: len(lower) == len(bech) && forall k :: 0 <= k && k < len(bech) ==> lower[k] == bech32.lower(bech[k])
 //@   assert after ToUpper#1: len(upper) == len(bech) && forall k :: 0 <= k && k < len(bech) ==> upper[k] == bech32.upper(bech[k])
 
 //@ func bech32.Encode
+//@   ensures (forall k :: 0 <= k && k < len(data) ==> data[k] < 32) ==> err == nil
 //@   ensures err == nil ==> len(result0) == len(hrp) + 7 + len(data)
 //@   ensures err == nil ==> forall k :: 0 <= k && k < len(hrp) ==> result0[k] == hrp[k]
 //@   ensures err == nil ==> result0[len(hrp)] == '1' && forall k :: 0 <= k && k < len(data) ==> data[k] < 32 && result0[len(hrp) + 1 + k] == charset[int(data[k])]
@@ -174,4 +191,58 @@ package bech32
 //@   assert after append#2: lemma b32_selfcheck_b($S)
 //@   assert after append#2: $T6 == 1
 //@   assert after append#2: bech32.foldc(1, hrp, len(hrp), $q, (2 * len(hrp) + 1 + len($p)) + 6) == 1
+//@   assert after append#2: bech32.cksum(hrp, len(hrp), $q, len($q) - 6) == $W
+//@   assert after append#2: $q[len($q) - 6 + 0] == u8((bech32.cksum(hrp, len(hrp), $q, len($q) - 6) >> 25) & 31)
+//@   assert after append#2: $q[len($q) - 6 + 1] == u8((bech32.cksum(hrp, len(hrp), $q, len($q) - 6) >> 20) & 31)
+//@   assert after append#2: $q[len($q) - 6 + 2] == u8((bech32.cksum(hrp, len(hrp), $q, len($q) - 6) >> 15) & 31)
+//@   assert after append#2: $q[len($q) - 6 + 3] == u8((bech32.cksum(hrp, len(hrp), $q, len($q) - 6) >> 10) & 31)
+//@   assert after append#2: $q[len($q) - 6 + 4] == u8((bech32.cksum(hrp, len(hrp), $q, len($q) - 6) >> 5) & 31)
+//@   assert after append#2: $q[len($q) - 6 + 5] == u8((bech32.cksum(hrp, len(hrp), $q, len($q) - 6) >> 0) & 31)
 //@   assert after bech32VerifyChecksum#1: $ret
+
+//@ lemmafunc bech32.lemmaDecodeEncode
+//@   requires len(hrp) >= 1 && len(hrp) + 7 + len(data) <= 90 && (forall j :: 0 <= j && j < len(hrp) ==> 33 <= hrp[j] && hrp[j] <= 126 && !(hrp[j] >= 65 && hrp[j] <= 90)) && (forall k :: 0 <= k && k < len(data) ==> data[k] < 32)
+//@   opaque bech32.step
+//@   skolemize bech32.Decode
+//@   snapshotinst
+//@   bind after bech32Checksum#1: $p = data
+//@   bind after append#2: $q = $ret
+//@   assert after append#2 as C1: len($q) == len($p) + 6 && len($p) >= 0 && len(hrp) >= 1 && (forall k :: 0 <= k && k < len($p) ==> $q[k] == $p[k] && $q[k] < 32)
+//@   assert after append#2: $q[len($p) + 0] == u8((bech32.cksum(hrp, len(hrp), $p, len($p)) >> 25) & 31) && $q[len($p) + 0] < 32
+//@   assert after append#2: $q[len($p) + 1] == u8((bech32.cksum(hrp, len(hrp), $p, len($p)) >> 20) & 31) && $q[len($p) + 1] < 32
+//@   assert after append#2: $q[len($p) + 2] == u8((bech32.cksum(hrp, len(hrp), $p, len($p)) >> 15) & 31) && $q[len($p) + 2] < 32
+//@   assert after append#2: $q[len($p) + 3] == u8((bech32.cksum(hrp, len(hrp), $p, len($p)) >> 10) & 31) && $q[len($p) + 3] < 32
+//@   assert after append#2: $q[len($p) + 4] == u8((bech32.cksum(hrp, len(hrp), $p, len($p)) >> 5) & 31) && $q[len($p) + 4] < 32
+//@   assert after append#2: $q[len($p) + 5] == u8((bech32.cksum(hrp, len(hrp), $p, len($p)) >> 0) & 31) && $q[len($p) + 5] < 32
+//@   assert after append#2 from C1 expand bech32.at: forall k :: 0 <= k && k < 2 * len(hrp) + 1 + len($p) ==> bech32.at(hrp, len(hrp), $q, k) == bech32.at(hrp, len(hrp), $p, k)
+//@   assert after append#2: lemma b32_foldc_ext(1, hrp, len(hrp), $q, 2 * len(hrp) + 1 + len($p), $p, 2 * len(hrp) + 1 + len($p))
+//@   assert after append#2: bech32.cksum(hrp, len(hrp), $q, len($q) - 6) == bech32.cksum(hrp, len(hrp), $p, len($p))
+//@   assert after append#2 as Q1: len($q) == len($p) + 6 && forall k :: 0 <= k && k < len($q) ==> $q[k] < 32
+//@   assert after bech32VerifyChecksum#1: bech32.valid(hrp, len(hrp), $q, len($q))
+//@   bind after Encode#1: $e = $ret0
+//@   assert after Encode#1: $ret1 == nil
+//@   assert after Encode#1 as A1: len($e) == len(hrp) + 7 + len($p) && (forall k :: 0 <= k && k < len(hrp) ==> $e[k] == hrp[k]) && $e[len(hrp)] == 49 && (forall k :: 0 <= k && k < len($p) ==> $e[len(hrp) + 1 + k] == charset[int($q[k])])
+//@   assert after Encode#1 as B0: $e[len(hrp) + 1 + len($p) + 0] == charset[int($q[len($p) + 0])]
+//@   assert after Encode#1 as B1: $e[len(hrp) + 1 + len($p) + 1] == charset[int($q[len($p) + 1])]
+//@   assert after Encode#1 as B2: $e[len(hrp) + 1 + len($p) + 2] == charset[int($q[len($p) + 2])]
+//@   assert after Encode#1 as B3: $e[len(hrp) + 1 + len($p) + 3] == charset[int($q[len($p) + 3])]
+//@   assert after Encode#1 as B4: $e[len(hrp) + 1 + len($p) + 4] == charset[int($q[len($p) + 4])]
+//@   assert after Encode#1 as B5: $e[len(hrp) + 1 + len($p) + 5] == charset[int($q[len($p) + 5])]
+//@   assert after Encode#1 as E1 from A1, B0, B1, B2, B3, B4, B5, Q1: len($e) == len(hrp) + 1 + len($q) && forall k :: 0 <= k && k < len($q) ==> $e[len(hrp) + 1 + k] == charset[int($q[k])]
+//@   assert after Encode#1 as T1 from nothing: forall v u8 :: v < 32 ==> charset[int(v)] == bech32.charset(int(v))
+//@   assert after Encode#1 as T2 from nothing: forall v u8 :: v < 32 ==> bech32.rev(bech32.charset(int(v))) == int(v) && bech32.charset(int(v)) != 49 && bech32.charset(int(v)) >= 33 && bech32.charset(int(v)) <= 126 && !(bech32.charset(int(v)) >= 65 && bech32.charset(int(v)) <= 90)
+//@   assert after Encode#1 as R1 from E1, T1, T2, Q1: forall k :: 0 <= k && k < len($q) ==> bech32.rev($e[len(hrp) + 1 + k]) == int($q[k]) && $e[len(hrp) + 1 + k] != 49 && $e[len(hrp) + 1 + k] >= 33 && $e[len(hrp) + 1 + k] <= 126 && !($e[len(hrp) + 1 + k] >= 65 && $e[len(hrp) + 1 + k] <= 90)
+//@   assert after Decode#1 as S1: len($arg0) == len(hrp) + 1 + len($q) && len($q) == len($p) + 6 && (forall j :: 0 <= j && j < len(hrp) ==> $arg0[j] == hrp[j]) && $arg0[len(hrp)] == 49 && (forall k :: 0 <= k && k < len($q) ==> $arg0[len(hrp) + 1 + k] == $e[len(hrp) + 1 + k])
+//@   assert after Decode#1 as S2: forall j :: len(hrp) < j && j < len($arg0) ==> bech32.rev($arg0[j]) == int($q[j - len(hrp) - 1]) && bech32.rev($arg0[j]) != -1 && $arg0[j] != 49 && 33 <= $arg0[j] && $arg0[j] <= 126 && !($arg0[j] >= 65 && $arg0[j] <= 90)
+//@   assert after Decode#1: lemma b32_last1_props($arg0, len($arg0))
+//@   assert after Decode#1 as P1: bech32.last1($arg0, len($arg0)) == len(hrp)
+//@   assert after Decode#1: forall k :: 0 <= k && k < len($arg0) ==> 33 <= $arg0[k] && $arg0[k] <= 126 && !($arg0[k] >= 65 && $arg0[k] <= 90)
+//@   assert after Decode#1 from S1, S2 expand bech32.ats, bech32.at, bech32.hx: forall k :: 0 <= k && k < len($arg0) + len(hrp) ==> bech32.ats($arg0, len(hrp), k) == bech32.at(hrp, len(hrp), $q, k)
+//@   assert after Decode#1: lemma b32_folds_is_foldc(1, $arg0, len(hrp), hrp, $q, len($arg0) + len(hrp))
+//@   assert after Decode#1: bech32.folds(1, $arg0, len(hrp), len($arg0) + len(hrp)) == 1
+//@   assert after Decode#1: $ret2 == nil
+//@   assert after Decode#1: len($ret0) == len(hrp) && forall j :: 0 <= j && j < len(hrp) ==> $ret0[j] == hrp[j]
+//@   assert after Decode#1 as D0: len($ret1) == len($p)
+//@   assert after Decode#1 as D1: forall k :: 0 <= k && k < len($ret1) ==> int($ret1[k]) == bech32.rev(bech32.lower($arg0[len(hrp) + 1 + k]))
+//@   assert after Decode#1 as D2: forall k :: 0 <= k && k < len($p) ==> bech32.rev(bech32.lower($arg0[len(hrp) + 1 + k])) == int($q[k]) && $q[k] == $p[k]
+//@   assert after Decode#1 from D0, D1, D2: len($ret1) == len($p) && forall k :: 0 <= k && k < len($p) ==> $ret1[k] == $p[k]
